@@ -154,6 +154,29 @@ def obligation_name(u, f):
     return "%s::%s::%s" % (u["unit"], fn, f.get("label") or f["kind"])
 
 
+def relevant_functions(u, pid):
+    """functions carrying a clause tagged `pid`, plus everything they (transitively) call inside the unit"""
+    by_name = {}
+    for fn in u["functions"]:
+        by_name.setdefault(fn["emitted_as"], []).append(fn)
+    rel = set()
+    work = []
+    tagged = {c["fn"] for c in u["clauses"] if pid in c["props"] or not c["props"]}
+    for fn in u["functions"]:
+        if fn["fn"] in tagged or pid in fn.get("props", []):
+            work.append(fn)
+    while work:
+        fn = work.pop()
+        if fn["fn"] in rel:
+            continue
+        rel.add(fn["fn"])
+        for callee in fn.get("calls", []):
+            for g in by_name.get(callee, []):
+                if g["fn"] not in rel:
+                    work.append(g)
+    return rel
+
+
 def props_of_failure(f, fnmeta, unit_props):
     if f.get("props"):
         return f["props"]
@@ -236,7 +259,7 @@ def cmd_check(args):
         for un, fu in futs.items():
             results[un] = fu.result()
 
-    violations, known, undecided_msgs, resolved = [], [], [], []
+    violations, known, undecided_msgs, resolved, notes = [], [], [], [], []
     obligations = discharged = 0
     samples, fns_under_contract, trusted, checker_cmds, edits, macro_rw, clause_list = [], [], [], [], [], [], []
     smt_ms = 0
@@ -255,11 +278,15 @@ def cmd_check(args):
         smt_ms += s["smt_ms"]
         kf_fns = {fn["verus_name"]: fn for fn in u["functions"] if fn.get("kf")}
         crate = u["crate"]
+        relevant = relevant_functions(u, pid)
+        by_vname = {fn["verus_name"]: fn for fn in u["functions"]}
         for f in s["functions"]:
             if not f["function"].startswith(crate + "::"):
                 continue
             if f["function"] in kf_fns:
                 continue
+            if f["function"] in by_vname and by_vname[f["function"]]["fn"] not in relevant:
+                continue   # a contracted function that no clause of this property depends on
             obligations += 1
             if f["success"]:
                 discharged += 1
@@ -268,7 +295,7 @@ def cmd_check(args):
                                 "mode": f["mode"], "backend": "verus/z3", "discharged": f["success"],
                                 "smt_us": f["time_us"], "rlimit": f["rlimit"]})
         for fn in u["functions"]:
-            if fn.get("kf"):
+            if fn.get("kf") or fn["fn"] not in relevant:
                 continue
             fns_under_contract.append({k: fn[k] for k in ("unit", "fn", "file", "line", "end_line", "body_sha256")})
         trusted.extend("%s: %s" % (u["unit"], t) for t in u["trusted_scan"])
@@ -293,6 +320,9 @@ def cmd_check(args):
                 undecided_msgs.append("%s fails: a support clause (states what the code computes so that callers can be verified; not a property clause): %s" % (name, f["message"]))
             elif pid in fprops:
                 violations.append((u, f))
+            elif f.get("fn") not in relevant:
+                notes.append("%s fails (obligation of %s in a function no %s clause depends on): not this property's concern" % (
+                    name, ",".join(fprops), pid))
             else:
                 undecided_msgs.append("%s fails (an obligation of %s that this property's lemmas rest on): %s" % (
                     name, ",".join(fprops), f["message"]))
@@ -372,6 +402,8 @@ def cmd_check(args):
         rc = 2
     for m in undecided_msgs:
         lines.append("UNDECIDED: " + m)
+    for m in notes:
+        lines.append("NOTE: " + m)
 
     level_ok = (obligations > 0 and obligations == discharged and rc == 0)
     ev = {
